@@ -18,11 +18,11 @@ class VerusResult:
         self.smt_ms = 0; self.total_ms = 0; self.cmd = ""; self.raw_err = ""; self.timed_out = False
         self.tool_failure = None
 
-def run(text, scratch, name, built=None, timeout=600, extra=()):
+def run(text, scratch, name, built=None, timeout=600, extra=(), multiple_errors=50):
     os.makedirs(scratch, exist_ok=True)
     path = os.path.join(scratch, name + ".rs")
     open(path, "w").write(text)
-    cmd = [VERUS, path, "--output-json", "--time", "--multiple-errors", "50", "--num-threads", str(os.cpu_count() or 4)] + list(extra) + ["--", "--error-format=json"]
+    cmd = [VERUS, path, "--output-json", "--time", "--multiple-errors", str(multiple_errors), "--num-threads", str(os.cpu_count() or 4)] + list(extra) + ["--", "--error-format=json"]
     R = VerusResult(); R.cmd = " ".join(cmd)
     t0 = time.time()
     try:
